@@ -82,4 +82,25 @@ MUTANTS = [
         "what": "update_variables applies elements before validating (revert part of fix F)",
         "edits": [('        self._check_all_known(variables, self._variables, ctx="variables")\n', "")],
     },
+    # ------------------------------------------------------------------ C19
+    {
+        "id": "M29", "property": "C19", "file": "parallel.py",
+        "what": "a placeholder is saved before fn runs and overwritten afterwards",
+        "edits": [("        res = fn(v)\n        cache.save_fn(file, res)", "        cache.save_fn(file, None)\n        res = fn(v)\n        cache.save_fn(file, res)")],
+    },
+    {
+        "id": "M30", "property": "C19", "file": "parallel.py",
+        "what": "cache file names collide for different keys",
+        "edits": [('    return f"{k}.p"', '    return f"{len(str(k)) % 3}.p"')],
+    },
+    {
+        "id": "M31", "property": "C19", "file": "parallel.py",
+        "what": "revert the atomic write (write straight into the final path)",
+        "edits": [('    with tmp.open("wb") as fp:\n        pickle.dump(data, fp)\n    tmp.replace(file)', '    with file.open("wb") as fp:\n        pickle.dump(data, fp)')],
+    },
+    {
+        "id": "M35", "property": "C19", "file": "parallel.py",
+        "what": "temporary file renamed into place before it is flushed and closed",
+        "edits": [('        pickle.dump(data, fp)\n    tmp.replace(file)', '        pickle.dump(data, fp)\n        tmp.replace(file)')],
+    },
 ]
